@@ -14,7 +14,7 @@ EXPLANATION = ("DIP programs with nested @case/@else/@end blocks are generated a
                "the text; per path the set of parameters must equal {n : every enclosing clause is the selected one} and each value term must equal the last effective assignment. "
                "Blocks are closed by @end, by de-indentation and by the end of the text; misplaced @else/@end must raise.")
 ASSUMPTIONS = dipkit.DIP_STUB_TEXT + ["case conditions are the literals true/false (expressions as conditions are C18's subject)"]
-OUTSIDE = ['nesting deeper than 3, more than 3 clauses per block', 'properties (!options ...) attached inside clauses', 'case blocks below group nodes']
+OUTSIDE = ['nesting deeper than 3, more than 3 clauses per block', 'properties (!options ...) attached inside clauses', 'case blocks below group nodes (group headers with plain children inside and after clauses are covered)']
 BOUNDS = {'quick': '30 curated + 120 generated programs: depth <= 2, <= 3 clauses per block, <= 6 conditions', 'thorough': '900 generated programs, depth <= 3, <= 7 conditions'}
 EXHAUSTIVE = {'quick': False, 'thorough': False}
 PRE = dipkit.DIP_SRC + '''
@@ -26,6 +26,10 @@ def render(O, v, items, level, tv, lines):
             lines.append(f'{pad}{it[1]} float = {O.lit(getattr(v, it[2]))}')
         elif it[0] == 'mod':
             lines.append(f'{pad}{it[1]} = {O.lit(getattr(v, it[2]))}')
+        elif it[0] == 'group':          # a group header line (no type, no value) with children one level deeper
+            lines.append(f'{pad}{it[1]}')
+            for child, x in it[2]:
+                lines.append(f'{pad}  {child} float = {O.lit(getattr(v, x))}')
         elif it[0] == 'block':
             for kind, cond, body in it[1]:
                 if kind == 'case':
@@ -41,6 +45,10 @@ def expected(v, items, tv, active, acc):
         if it[0] in ('node', 'mod'):
             if active:
                 acc[it[1]] = getattr(v, it[2])
+        elif it[0] == 'group':
+            if active:
+                for child, x in it[2]:
+                    acc[it[1] + '.' + child] = getattr(v, x)
         else:
             taken = False
             for kind, cond, body in it[1]:
@@ -94,6 +102,8 @@ class G:
         if active_names and self.rnd.random() < 0.3:
             return ('mod', self.rnd.choice(active_names), self.val())
         self.nn += 1
+        if self.rnd.random() < 0.2:
+            return ('group', f'g{self.nn}', [(f'k{j}', self.val()) for j in range(self.rnd.choice([1, 2]))])
         return ('node', f'n{self.nn}', self.val())
 
     def items(self, depth, outer_names, count=None):
@@ -148,6 +158,9 @@ CURATED = [
     ('nested block followed by de-indent to top', [('block', [('case', 'c1', [N('a', 'x1'), ('block', [('case', 'c2', [N('i', 'x2')]), ('else', None, [N('j', 'x3')])], 'dedent')])], 'dedent'), N('o', 'x4')]),
     ('same name defined in every clause', [('block', [('case', 'c1', [N('a', 'x1')]), ('case', 'c2', [N('a', 'x2')]), ('else', None, [N('a', 'x3')])], 'end'), ('mod', 'a', 'x4')]),
     ('block inside second clause', [('block', [('case', 'c1', [N('a', 'x1')]), ('case', 'c2', [('block', [('case', 'c3', [N('i', 'x2')])], 'end'), N('k', 'x3')])], 'eof')]),
+    ('group header with children right after a block closed by de-indentation', [('block', [('case', 'c1', [N('a', 'x1')]), ('else', None, [N('a2', 'x2')])], 'dedent'), ('group', 'grp', [('u', 'x3'), ('w', 'x4')]), N('z', 'x5')]),
+    ('group header after a one-clause block closed by de-indentation', [N('p', 'x1'), ('block', [('case', 'c1', [N('h', 'x2')])], 'dedent'), ('group', 'size', [('x', 'x3')])]),
+    ('group inside a clause and group closing the nested block', [('block', [('case', 'c1', [('group', 'g', [('u', 'x1')]), ('block', [('case', 'c2', [N('i', 'x2')])], 'dedent'), ('group', 'h', [('w', 'x3')])]), ('else', None, [N('e', 'x4')])], 'dedent'), ('group', 'o', [('q', 'x5')])]),
     ('empty-ish: only else selected branch has nodes', [('block', [('case', 'c1', []), ('else', None, [N('e', 'x1')])], 'dedent'), N('o', 'x2')]),
 ]
 
@@ -183,6 +196,9 @@ def _vals(items):
     for it in items:
         if it[0] in ('node', 'mod'):
             yield it[2]
+        elif it[0] == 'group':
+            for child, x in it[2]:
+                yield x
         else:
             for kind, cond, body in it[1]:
                 yield from _vals(body)
@@ -193,6 +209,8 @@ def _brief(items):
     for it in items:
         if it[0] in ('node', 'mod'):
             out.append(it[1] + ('=' if it[0] == 'mod' else ''))
+        elif it[0] == 'group':
+            out.append(it[1] + '[' + ','.join(c for c, _ in it[2]) + ']')
         else:
             out.append('{' + ' | '.join((c[1] or 'else') + ':' + _brief(c[2]) for c in it[1]) + '}' + it[2][0])
     return ' '.join(out)
